@@ -111,6 +111,7 @@ UNARY = {
     "evo_const": None, "evo_td": None, "permute": None, "transform": None, "contract": None,
     "sesolve_prop": None, "mesolve_dm": None, "propagator": None, "steadystate": None,
     "to_choi": None, "to_chi": None, "to_super_rt": None,
+    "transform_kets": None, "transform_matrix": None, "solver_reuse_me": None, "solver_reuse_se": None,
     "trunc_neg": lambda q: q.trunc_neg() if q.isherm else q,
 }
 BINARY = {
@@ -164,6 +165,42 @@ def apply_op(name, args, rng):
         return t.permute([1, 0])
     if name == "transform":
         return q.transform(qutip.Qobj(np.array([[0, 1], [1, 0]], dtype=complex))) if q.dims == [[2], [2]] else q.copy()
+    if name == "transform_kets":
+        if q.dims != [[2], [2]]:
+            return q.copy()
+        which = int(rng.integers(0, 4))
+        b0, b1 = qutip.basis(2, 0), qutip.basis(2, 1)
+        kets = [[b0, (b0 + b1).unit()], [0.5 * b0, b1], [(b0 + 1j * b1).unit(), (b0 - 1j * b1).unit()], [b1, b0]][which]
+        return q.transform(kets, bool(rng.integers(0, 2)))
+    if name == "transform_matrix":
+        if q.dims != [[2], [2]]:
+            return q.copy()
+        which = int(rng.integers(0, 3))
+        m = [np.array([[1, 1], [0, 1]], dtype=complex), np.array([[0, 1j], [1j, 0]], dtype=complex), np.array([[2, 0], [0, 1]], dtype=complex)][which]
+        return q.transform(m if rng.random() < 0.5 else qutip.Qobj(m), bool(rng.integers(0, 2)))
+    if name in ("solver_reuse_me", "solver_reuse_se"):
+        # a solver object used for one state and then for another one with the same dims: outputs describe their own matrix
+        if q.dims != [[2], [2]]:
+            return q.copy()
+        H = 0.3 * qutip.sigmax() + 0.2 * qutip.sigmaz()
+        if name == "solver_reuse_me":
+            sol = qutip.MESolver(H, [0.4 * qutip.destroy(2)], options={"progress_bar": ""})
+            first = qutip.fock_dm(2, 0)
+        else:
+            sol = qutip.SESolver(H, options={"progress_bar": ""})
+            first = qutip.qeye(2)
+        order = int(rng.integers(0, 3))
+        if order == 0:
+            sol.run(first, [0, 0.3])
+            return sol.run(q, [0, 0.4]).states[-1]
+        if order == 1:
+            q.isherm
+            sol.run(q, [0, 0.3])
+            return sol.run(first, [0, 0.4]).states[-1]
+        sol.start(first, 0)
+        sol.step(0.2)
+        sol.start(q, 0)
+        return sol.step(0.3)
     if name == "contract":
         return qutip.tensor(q, qutip.qeye(1)).contract() if q.isoper and not q.issuper else q.copy()
     if name in ("to_choi", "to_chi", "to_super_rt"):
